@@ -48,6 +48,22 @@ inline RArray make_rarray(Ctx &c, nix::Block &b, const std::string &name, size_t
     return A;
 }
 
+// a second index-holding array with the same shape and the same dimension descriptors as A
+inline RArray make_rarray_like(Ctx &c, nix::Block &b, const std::string &name, const RArray &A) {
+    using namespace nix; RArray B; B.shape = A.shape; B.ax = A.ax; size_t rank = A.rank();
+    B.da = b.createDataArray(name, "t", DataType::Double, to_nd(B.shape));
+    long n = ArrayModel::nelms(B.shape); std::vector<double> lin((size_t)n); for (long i = 0; i < n; i++) lin[(size_t)i] = (double)i;
+    B.da.setData(DataType::Double, lin.data(), to_nd(B.shape), NDSize(rank, 0));
+    for (size_t d = 0; d < rank; d++) {
+        const Axis &ax = B.ax[d];
+        if (ax.kind == Axis::Sampled) { SampledDimension sd = B.da.appendSampledDimension(ax.dt); if (ax.off != 0.0) sd.offset(ax.off); if (!ax.unit.empty()) sd.unit(ax.unit); }
+        else if (ax.kind == Axis::Range) { RangeDimension rd = B.da.appendRangeDimension(ax.ticks); if (!ax.unit.empty()) rd.unit(ax.unit); }
+        else if (ax.kind == Axis::Set) { std::vector<std::string> l; for (long i = 0; i < ax.nlabels; i++) l.push_back("l" + str(i)); B.da.appendSetDimension(l); }
+        else { std::vector<Column> cols = {{"k", "", DataType::Int64}}; DataFrame df = b.createDataFrame(name + "-frame" + str(d), "t", cols); df.rows((ndsize_t)ax.rows); B.da.appendDataFrameDimension(df, 0u); }
+    }
+    return B;
+}
+
 // a position near index i of an axis with n stored elements; cls receives the class name
 inline double gen_position(const Axis &a, long n, long i, Rng &r, std::string &cls) {
     long nb = a.bound();
